@@ -13,6 +13,10 @@
                                                             CONSTRUCTION (insertion) order, keys pairwise
                                                             not EqDoc.  Every relation below ignores the order.
      Fn(id), Ns(id)      [t |-> "fn"|"ns", v |-> id]        closures / namespaces: identity only (id = string)
+   A map term has several REPRESENTATIONS in the real code, all the same abstract value (EqDoc, SameKey and every
+   rule "eq values hash equally" range over representation pairs): an ordinary map (any insertion order), and a
+   FIELD MAP = Go struct with exported fields (typed bool/int/float64/string fields or `any` fields; keys are the
+   dash-case field names).  The executors build all of them natively (valpool.Builder.Go variant 3, c08 fmTyped/fmAny/fmScore).
    Always test the tag (x.t) before touching x.v; never use TLA+ "=" on whole terms as a stand-in
    for Elvish equality (EqDoc is coarser: -0.0/+0.0, map order).
 
